@@ -17,3 +17,13 @@ func verifWrapWriters(w *SSTableStreamWriter) {
 		w.indexWriter, w.dataWriter = f(w.opts.basePath, w.indexWriter, w.dataWriter)
 	}
 }
+
+// VerifSuperReaderGet, when set, is called at the start of SuperSSTableReader.Get, i.e. after the caller has picked
+// up the stacked reader and before any table is read (a harness can park the reading goroutine there).
+var VerifSuperReaderGet func()
+
+func verifSuperGet() {
+	if f := VerifSuperReaderGet; f != nil {
+		f()
+	}
+}
